@@ -44,6 +44,8 @@ type tarCase struct {
 	// contents.build_repositories, "append" passes it like --build-repository-append, "runtime-append" adds a second
 	// runtime repository like --repository-append
 	BuildRepos string `json:"build_repos,omitempty"`
+	// which truncations the case contains (tags only): pkg:<how> on a package-provided file, plain:<how> on another
+	Trunc []string `json:"trunc,omitempty"`
 }
 
 type tarSuite struct{}
@@ -286,6 +288,63 @@ func tarDesc(o fsOp) string {
 	return o.desc()
 }
 
+// tarReadback reads every regular entry of the layer back through the FS interface of the file system the layer
+// was made from: `path,Stat size,content key of ReadFile,len(ReadFile)` per entry (`!` + error class when a call fails)
+func tarReadback(fsys apkfs.FullFS, entries string) (string, []string) {
+	if entries == "" || strings.HasPrefix(entries, "UNREADABLE") {
+		return "", nil
+	}
+	var recs []string
+	tags := map[string]struct{}{}
+	for _, e := range strings.Split(entries, ";") {
+		f := strings.Split(e, ",")
+		if len(f) < 14 || f[1] != "0" {
+			continue
+		}
+		nb, err := hex.DecodeString(f[0])
+		if err != nil {
+			continue
+		}
+		name := string(nb)
+		fi, err := fsys.Stat(name)
+		if err != nil {
+			recs = append(recs, f[0]+",!stat:"+fsErr(err))
+			continue
+		}
+		b, err := fsys.ReadFile(name)
+		if err != nil {
+			recs = append(recs, f[0]+",!read:"+fsErr(err))
+			continue
+		}
+		if len(b) == 0 {
+			tags["rb:empty"] = struct{}{}
+		} else {
+			tags["rb:non-empty"] = struct{}{}
+		}
+		recs = append(recs, fmt.Sprintf("%s,%d,%s,%d", f[0], fi.Size(), tarContentKey(b), len(b)))
+	}
+	var tl []string
+	for t := range tags {
+		tl = append(tl, t)
+	}
+	sort.Strings(tl)
+	return strings.Join(recs, ";"), tl
+}
+
+func tarTruncTags(tr []string) []string {
+	var out []string
+	for _, t := range tr {
+		out = append(out, "trunc:"+t)
+	}
+	return out
+}
+
+func tarReadbackStep(fsys apkfs.FullFS, entries, desc string, extra []string) Step {
+	rb, tl := tarReadback(fsys, entries)
+	return Step{Line: "tar.readback\t" + entries + "\t" + rb, Go: "-", Desc: "layer bodies against ReadFile/Stat of " + desc, Mode: "verdict", NoImpl: true,
+		Tags: append(tl, extra...), Trivial: rb == ""}
+}
+
 func runTarFsCase(c tarCase) []Step {
 	w := newWorld(c.Backend)
 	toks := make([]string, 0, len(c.Ops))
@@ -348,6 +407,7 @@ func runTarFsCase(c tarCase) []Step {
 	steps = append(steps, Step{Line: line(entries), Go: entries, Desc: desc, Mode: "verdict", Tags: tags, Trivial: strings.Count(entries, ";") < 2})
 	steps = append(steps, Step{Line: "tar.digest", Go: dv, Desc: "digest/diffid/size of " + desc, Mode: "oracle-go", GoSpec: dv, NoImpl: true,
 		Tags: []string{"digest:" + strings.SplitN(dv, ":", 2)[0]}, Trivial: true})
+	steps = append(steps, tarReadbackStep(w.base, entries, desc, tarTruncTags(c.Trunc)))
 	return steps
 }
 
@@ -525,6 +585,7 @@ func runTarE2ECase(c tarCase) []Step {
 		{Line: "tar.check\t" + entries + "\t" + obs + "\t" + hx(string(pw)) + "\t" + hx(string(gr)), Go: "-", Desc: desc, Mode: "verdict", NoImpl: true, Tags: compactStrings(tags)},
 		{Line: "tar.digest", Go: dv, Desc: "digest/diffid/size of " + desc, Mode: "oracle-go", GoSpec: dv, NoImpl: true, Tags: []string{"digest:" + strings.SplitN(dv, ":", 2)[0]}, Trivial: true},
 		tarGlueReposStep(raw, built, runtimeRepos, desc),
+		tarReadbackStep(built, entries, desc, tarTruncTags(c.Trunc)),
 	}
 }
 
@@ -613,6 +674,7 @@ func genTarFsCase(r *Rng, big bool) tarCase {
 	tarfsB := c.Backend == "tarfs"
 	add := func(o fsOp) { c.Ops = append(c.Ops, o) }
 	var dirs, files, links, devs []string
+	pkgFile := map[string]bool{} // non-empty regular files laid out through WriteHeader (package-provided)
 	// directories
 	nd := r.Range(1, 6)
 	for k := 0; k < nd; k++ {
@@ -666,10 +728,54 @@ func genTarFsCase(r *Rng, big bool) tarCase {
 				h.Xattrs = []string{Pick(r, tarXattrNames), Pick(r, tarXattrVals)}
 			}
 			add(fsOp{K: "wh", Hdr: h})
+			if len(content) > 0 {
+				pkgFile[p] = true
+			}
 		} else {
 			add(fsOp{K: "writefile", P: p, D: content, N: Pick(r, tarFilePerms)})
 		}
 		files = append(files, p)
+	}
+	// truncation before the layer is written, with and without new content: WriteFile(p, nil), Create (what the
+	// `empty-file` path mutation calls), OpenFile with O_TRUNC.  On a package-provided file of tarfs the truncation is
+	// ignored (F17b) — consistently: Stat, ReadFile and the layer keep the package's bytes
+	if r.Chance(40) {
+		n := r.Range(1, 2)
+		for k := 0; k < n; k++ {
+			p := Pick(r, files)
+			if tarfsB && r.Chance(60) {
+				for _, q := range files {
+					if pkgFile[q] {
+						p = q
+						break
+					}
+				}
+			}
+			who := "plain"
+			if pkgFile[p] {
+				who = "pkg"
+			}
+			how := Pick(r, []string{"writefile-nil", "create", "open-trunc", "open-trunc-create", "open-trunc-write", "writefile-new"})
+			switch how {
+			case "writefile-nil":
+				add(fsOp{K: "writefile", P: p, D: "", N: 0o644})
+			case "create":
+				add(fsOp{K: "create", P: p})
+			case "open-trunc":
+				add(fsOp{K: "open", P: p, M: Pick(r, []int{os.O_WRONLY | os.O_TRUNC, os.O_RDWR | os.O_TRUNC}), N: 0o644})
+			case "open-trunc-create":
+				add(fsOp{K: "open", P: p, M: os.O_WRONLY | os.O_CREATE | os.O_TRUNC, N: 0o644})
+			case "open-trunc-write":
+				h := countOpens(c.Ops)
+				add(fsOp{K: "open", P: p, M: os.O_RDWR | os.O_TRUNC, N: 0o644})
+				add(fsOp{K: "write", H: h, D: tarGenContent(r, Pick(r, []int{1, 7, 40}))})
+				add(fsOp{K: "close", H: h})
+			default:
+				add(fsOp{K: "writefile", P: p, D: tarGenContent(r, Pick(r, []int{1, 7, 40})), N: 0o644})
+				delete(pkgFile, p)
+			}
+			c.Trunc = append(c.Trunc, who+":"+how)
+		}
 	}
 	if big {
 		p := fresh()
@@ -818,6 +924,21 @@ func genTarE2ECase(r *Rng) tarCase {
 		}
 	}
 	c := tarCase{Kind: "e2e", Img: &img}
+	if r.Chance(40) {
+		// `paths: type: empty-file` on a regular, non-empty file of a package (FullFS.Create on a tar-backed node)
+		var cands []string
+		for _, p := range img.Pkgs {
+			for _, f := range p.Files {
+				if f.Type == "file" && len(f.Content) > 0 {
+					cands = append(cands, f.Path)
+				}
+			}
+		}
+		if len(cands) > 0 {
+			img.IC.Paths = append(img.IC.Paths, types.PathMutation{Path: "/" + strings.TrimPrefix(Pick(r, cands), "/"), Type: "empty-file", UID: 0, GID: 0, Permissions: 0o644})
+			c.Trunc = append(c.Trunc, "pkg:empty-file-mutation")
+		}
+	}
 	if r.Chance(60) {
 		c.BuildRepos = Pick(r, []string{"config", "config", "append", "runtime-append"})
 	}
